@@ -72,3 +72,13 @@ def steep_cfg(scale=2100.0, seed=3, flow=("BOREHOLE", 0.3)):
             geom_over={"length": 4, "b": 5.0, "min_height": 15.0, "max_height": 60.0})
     c["soil"] = dict(c["soil"], undisturbed_temp=10.0)
     return c
+
+
+def rowwise_small_cfg(scale, cont=False):
+    """RowWise on a small lot where even the sparsest generated field meets the limits: the search goes into its borehole-removal
+    bisection (rotation -5 deg only: no two boreholes at the same distance from the corner)"""
+    c = cfg("ROWWISE", months=12, loads={"kind": "constant", "scale": scale, "seed": 1, "sign": -1.0},
+            design={"continue_if_design_unmet": cont},
+            geom_over={"property_boundary": [[0, 0], [20.5, 0], [20.5, 10.5], [0, 10.5]], "no_go_boundaries": [], "perimeter_spacing_ratio": None,
+                       "max_spacing": 10.0, "min_spacing": 5.0, "spacing_step": 1.0, "max_rotation": 0.0, "min_rotation": -5.0, "rotate_step": 5.0})
+    return c
